@@ -1511,3 +1511,22 @@ def lt_truth(atom, is_a, is_b):
     """truth of `a < b`: Lt(a, b) = t | Le(b, a) = !t"""
     r = le_truth(atom, is_b, is_a)
     return None if r is None else (not r)
+
+
+def reaches_call(F, f, sub, depth, _memo={}):
+    """f (or a local function it calls, `depth` levels down) contains a call whose callee mentions `sub`"""
+    key = (id(F), f.name, sub, depth)
+    if key in _memo:
+        return _memo[key]
+    _memo[key] = False
+    r = bool(f.calls_to(sub))
+    if not r and depth > 0:
+        for b, t in f.calls():
+            g = F.fns.get(t.get("rpath") or "")
+            if t["res"] == "item" and g is not None and g is not f and reaches_call(F, g, sub, depth - 1):
+                r = True
+                break
+    _memo[key] = r
+    return r
+
+
